@@ -438,7 +438,13 @@ macro_rules! fit_or_return {
     ($x:expr, $dist:expr, $cfg:expr, $what:expr) => {
         match fit($x, $dist, $cfg) {
             FitRes::Ok(f) => f,
-            FitRes::Err(e) => return inconclusive(format!("fit returned Err: {e}")),
+            // every configuration generated here is in the domain (k <= n, finite data, valid
+            // hyper-parameters): the only refusal that is not a verdict on the configuration is the
+            // inertia failure on distances that overflow
+            FitRes::Err(e) if e.contains("No inertia improvement") => return inconclusive(format!("fit returned Err: {e}")),
+            FitRes::Err(e) => {
+                return violated("C09/fit/error-on-valid-configuration", json!({"error": e, "during": $what}))
+            }
             FitRes::Panic(p) => {
                 return violated(
                     "C09/fit/panic",
